@@ -203,10 +203,14 @@ CLAIMED = {
    design="§3/C17"),
  "C20": dict(
    category="exploration",
-   technique=("contract-based deductive verification (Verus on the mechanically extracted DomainGuard::new) for the one function within reach; "
+   technique=("contract-based deductive verification (Verus on the mechanically extracted DomainGuard::new and DomainRouter::detect_domain_conflicts) for the two functions within reach; "
               "a BOUNDED native stand-in (pseudo-random documented-valid guards x near-miss hosts through the real validator, the real pattern "
               "builder and a real matchit router) for validate / matchit_pattern, which the verifier cannot reach — labelled bounded, not proved"),
-   text=("Thin partial claim, mostly bounded. Proved (Verus, on the real text of DomainGuard::new): a guard is accepted exactly when "
+   text=("Thin partial claim, mostly bounded. Proved (Verus, on the real text of DomainRouter::detect_domain_conflicts, loop invariant, "
+         "any number of guards): every guard's pattern is offered, in registration order, to ONE matchit router, and the set is refused "
+         "(Err, with at least one diagnostic; Ok adds none) exactly when that router refuses one of them — matchit's verdict being an "
+         "uninterpreted function of the router's contents (measured NOT to be a pairwise relation). Proved (Verus, on the real text of "
+         "DomainGuard::new): a guard is accepted exactly when "
          "`validate` accepts the string it was given, and the stored domain is that string with its trailing dots removed ('one trailing "
          "dot is ignored' on the guard side) — nothing else is stored, nothing is accepted around the validator. BOUNDED, not proved: "
          "through the real DomainGuard::new + matchit_pattern and a real matchit router, with the three normalisation steps of the "
@@ -223,8 +227,9 @@ CLAIMED = {
          "stand-in enumerates only short strings over 7 symbols and samples beyond: a slip that needs a longer string over a richer "
          "alphabet than its pools (parameter names that are Rust keywords, limits other than the listed boundaries) is not seen. The host normalisation is REPLICATED in the stand-in from "
          "codegen/router.rs (it lives inside a quote! template): a change there is not seen. The conflict half of the statement "
-         "(detect_domain_conflicts: two guards that can match one host are rejected) is not decided — it is matchit's insert error, a "
-         "dependency. A host with several trailing dots is outside 'every host name' and not judged."),
+         "is decided only as far as 'the compiler refuses exactly what matchit refuses, having offered it everything': WHEN matchit "
+         "refuses is a dependency's rule and is not judged (it accepts `api.dev` next to `{sub}.dev` — the literal has priority — and its "
+         "verdict depends on registration order: DESIGN §3/C20). A host with several trailing dots is outside 'every host name' and not judged."),
    design="§3/C20"),
  "C19": dict(
    text=("Partial claim — the builder-API -> schema half. Verus discharges, on the real text of all 17 registration methods of "
